@@ -33,13 +33,15 @@ class SuperNetCombiner(nn.Module):
             self.sample_alpha = self.sample_alpha_gs
         else:
             self.sample_alpha = self.sample_alpha_sm
+        self._leaf_modules = [[]] * self.n_branches
         self._unique_leaf_modules = [[]] * self.n_branches
         self._cost_fn_map = None
 
-    def set_sn_branch(self, i: int, ulf: NamedLeafModules):
-        """Associates the lists of all unique leaf modules in each SuperNet branch
-        to the combiner
+    def set_sn_branch(self, i: int, nlf: NamedLeafModules, ulf: NamedLeafModules):
+        """Associates the lists of all leaf modules in each SuperNet branch (one entry per
+        invocation, and uniquified) to the combiner
         """
+        self._leaf_modules[i] = nlf
         self._unique_leaf_modules[i] = ulf
 
     def get_cost(self, cost_spec: CostSpec, cost_fn_map: Dict[str, CostFn]) -> torch.Tensor:
@@ -47,9 +49,12 @@ class SuperNetCombiner(nn.Module):
         nn.Sequential and nn.ModuleList.
         """
         cost = torch.tensor(0, dtype=torch.float32)
+        # unless the cost is shared, each invocation of a layer counts, with the shapes of its own
+        # call site (e.g. when the whole SuperNetModule is invoked at different resolutions)
+        target_lists = self._unique_leaf_modules if cost_spec.shared else self._leaf_modules
         for i in range(self.n_branches):
             cost_i = torch.tensor(0, dtype=torch.float32)
-            for lname, node, layer in self._unique_leaf_modules[i]:
+            for lname, node, layer in target_lists[i]:
                 # TODO: this is constant and can be pre-computed for efficiency
                 v = vars(layer)
                 v.update(shapes_dict(node))
